@@ -103,6 +103,13 @@ def cases(tier):
                 out.append(dict(spec=build(names, [], ["clone_der"] + ["clone"] * (n - 1)), dev=list(names) + ["clone_der"]))
                 if n == 2:
                     out.append(dict(spec=build(names, [], ["clone", "clone_der"]), dev=list(names) + ["clone_der1"]))
+                # guesses (constant and time-dependent) declared on the template: every clone starts from them, on its own horizon
+                if all(nm_ in ("A", "B", "F", "G") for nm_ in names):
+                    sp = build(names, [], ["clone"] * n)
+                    for sd_ in sp["stages"]:
+                        ini = [["x", "expr", "lin"], ["u", "const", -0.3]]
+                        sd_["d"]["init"] = ini; sd_["tmpl_d"]["init"] = ini
+                    out.append(dict(spec=sp, dev=list(names) + ["clone", "template_guess"]))
     # one method INSTANCE handed to every stage (documented as "will not be modified"): same NLP as with fresh instances
     for nm in ("A", "B", "C", "D", "E"):
         for n in (2, 3):
@@ -299,6 +306,22 @@ def run_case(case):
             if any(c["c"] in ("t_eq", "xt_le") for c in d["cons"]): tags.append("clone_time_in_constraint")
     tags = sorted(set(tags))
     vios = []
+    if res.exception is None and any(sd["d"].get("init") for sd in spec["stages"]):
+        # starting point of every stage = its guesses evaluated on its own horizon (C10's evaluator, per stage)
+        from . import c10
+        tags.append("template_guess")
+
+        class _StageView:
+            def __init__(self, nlp, i):
+                self.nlp, self.pre = nlp, "s%d." % i
+                self.x0, self.extra0 = nlp.x0, nlp.extra0
+
+            def read(self, w, extra=None):
+                q = self.nlp.read(w, extra=extra)
+                return {k[len(self.pre):]: v for k, v in q.items() if k.startswith(self.pre)}
+        for i, sd in enumerate(spec["stages"]):
+            v2, _ = c10.check_x0(sd["d"], _StageView(res.nlp, i), tags)
+            vios += v2
     if res.exception is not None:
         vios.append(dict(sig="exception:%s" % (res.exception["frame"] or res.exception["type"]), tags=tags, detail="%s: %s" % (res.exception["type"], res.exception["msg"])))
     else:
@@ -318,6 +341,6 @@ def run_case(case):
 
 def describe(tier):
     return dict(
-        rule="(one method instance handed to 2-3 stages) (histories: a stage added directly / from a template after a first solve; an edit {subject_to, set_T, add_objective, clear_constraints, method} on a sub-stage of a solved multi-stage OCP with no parent-level call in between; a sub-stage parameter updated after a solve followed by a parent-level edit; next solve = fresh multi-stage OCP) (mixed methods incl. SplineMethod: every list of length <=3 over {Spline, MS, DC} containing Spline, on integrator-chain stages: multi-stage NLP = concatenation of the stages' own real NLPs + coupling rows) and every stage list of length 1..3 over a 7-stage alphabet (incl. a global parameter whose value each clone receives after cloning) (MS / DC / SS, uniform and geometric grids, N, M, free end time, both times free with a per-interval parameter, explicit time in rhs / integrand / constraints) x coupling pattern (none, state continuity, time+state continuity, shared master variable with master objective, master variable together with a master parameter, master objective on a stage, combination) x declaration pattern (direct; all cloned from templates declared with another horizon; first cloned; clone then edit one clone with siblings from the same template): real multi-stage NLP rows = disjoint union of the stages' reference rows (each read back through stage.sample) + coupling rows, objective = sum of stage objectives + master terms; template's declared state unchanged",
+        rule="(guesses declared on a template: every clone starts from them on its own horizon) (one method instance handed to 2-3 stages) (histories: a stage added directly / from a template after a first solve; an edit {subject_to, set_T, add_objective, clear_constraints, method} on a sub-stage of a solved multi-stage OCP with no parent-level call in between; a sub-stage parameter updated after a solve followed by a parent-level edit; next solve = fresh multi-stage OCP) (mixed methods incl. SplineMethod: every list of length <=3 over {Spline, MS, DC} containing Spline, on integrator-chain stages: multi-stage NLP = concatenation of the stages' own real NLPs + coupling rows) and every stage list of length 1..3 over a 7-stage alphabet (incl. a global parameter whose value each clone receives after cloning) (MS / DC / SS, uniform and geometric grids, N, M, free end time, both times free with a per-interval parameter, explicit time in rhs / integrand / constraints) x coupling pattern (none, state continuity, time+state continuity, shared master variable with master objective, master variable together with a master parameter, master objective on a stage, combination) x declaration pattern (direct; all cloned from templates declared with another horizon; first cloned; clone then edit one clone with siblings from the same template): real multi-stage NLP rows = disjoint union of the stages' reference rows (each read back through stage.sample) + coupling rows, objective = sum of stage objectives + master terms; template's declared state unchanged",
         bound="lists of length <=3%s" % ("" if tier == "thorough" else " (length 3 restricted)"),
         assumptions=["CasADi Function evaluation and Opti bookkeeping are trusted", "generic-point alphabet", "stage.sample is the labelling of a stage's variables"])
